@@ -26,6 +26,26 @@ def _bytes_probe(pattern, flags=0):
     return rx.parse(pattern.decode("latin-1") if isinstance(pattern, bytes) else pattern, fl)
 
 
+def _is_set_of(term, values):
+    from ..terms import destruct
+    """does the term denote the (frozen)set of exactly these constants - as a folded constant, by name, or as a display?"""
+    o_, v_ = destruct(term)
+    if o_ == "const":
+        try:
+            return set(v_) == set(values)
+        except TypeError:
+            return False
+    if term.startswith("g:") and term.endswith("SKIPPABLE_HEADERS"):
+        return True
+    try:
+        node = ast.parse(term, mode="eval").body
+        if isinstance(node, ast.Call) and isinstance(node.func, ast.Name) and node.func.id in ("frozenset", "set") and len(node.args) == 1:
+            node = node.args[0]
+        return set(ast.literal_eval(node)) == set(values)
+    except Exception:
+        return False
+
+
 def run(ctx):
     m, fold = ctx.model, ctx.fold
     ctx.assume("A1")
@@ -251,7 +271,7 @@ def run(ctx):
         else:
             member = None
             for k_, v_ in r.st.ts.items():
-                if isinstance(k_, tuple) and len(k_) == 4 and k_[0] == "cmp" and k_[2] == "in" and destruct(k_[3]) == ("const", frozenset(sk)):
+                if isinstance(k_, tuple) and len(k_) == 4 and k_[0] == "cmp" and k_[2] == "in" and _is_set_of(k_[3], sk):
                     member = (k_[1], v_)
             lowered = member is not None and T("lower", f"p:{ph.params()[0]}") in subterms(member[0])
             if member is None or not lowered:
